@@ -9,7 +9,7 @@ from simv import boot  # noqa: F401  (installs the parser stub and imports the r
 from simv.model.exec import FaultError, peek
 from simv.model.schema import print_sdl
 
-from tartiflette import Resolver, Scalar, TartifletteError, TypeResolver, create_engine
+from tartiflette import Resolver, Scalar, Subscription, TartifletteError, TypeResolver, create_engine
 from tartiflette.constants import UNDEFINED_VALUE
 from tartiflette.language.ast import IntValueNode, StringValueNode
 from tartiflette.resolver.default import gather_arguments_coercer, sync_arguments_coercer
@@ -36,6 +36,9 @@ class Runtime:
         self.type_calls = 0
         self.shared = None  # dict shared by the requests of a batch (one exception instance for all)
         self.override = None  # path -> raw value (C03: adversarial results)
+        self.event_plans = []  # subscriptions: [(payload, plan)] in source order
+        self.event_calls = []
+        self.source_args = []
 
 
 class ReqCtx:
@@ -169,8 +172,32 @@ class XNum:
         return UNDEFINED_VALUE
 
 
+def make_source(coord):
+    """Subscription source: yields the run's planned event payloads, pausing at a scheduler point
+    before each; switches the request's active plan to the event's plan."""
+    async def source(parent, args, ctx, info):
+        rt = _rt_of(ctx)
+        loop = rt.loop
+        loop.ev("source_start", rt.rid, coord, canon(args))
+        rt.source_args.append(dict(args) if isinstance(args, dict) else args)
+        for k, (payload, plan) in enumerate(rt.event_plans):
+            await loop.point((rt.rid, "source", k))
+            rt.plan = plan
+            rt.calls = []
+            rt.event_calls.append(rt.calls)
+            loop.ev("event", rt.rid, k)
+            yield payload
+        await loop.point((rt.rid, "source", "end"))
+        loop.ev("source_end", rt.rid)
+
+    return source
+
+
 def register_bundle(schema, name, type_as_object=False):
     """Register resolvers / type resolvers / scalars of a schema model under a schema name."""
+    if schema.subscription:
+        for f in schema.t(schema.subscription).fields.values():
+            Subscription("%s.%s" % (schema.subscription, f.name), schema_name=name)(make_source((schema.subscription, f.name)))
     for td in list(schema.types.values()):
         if td.kind == "OBJECT":
             for f in td.fields.values():
